@@ -367,6 +367,15 @@ def _fresh_at(pa: PathAnalysis, sets: Dict[str, str], fn: Func, site: ast.AST, e
             if v:
                 found = ("a walk over the scope", v) if found is None or v == "complete" else found
         for f in w.facts:
+            # the identifier equals a name that is ALREADY bound at this position (`first_arg_name == 'cls'` with
+            # first_arg_name read from the .arg of the parameter being replaced): nothing new is bound
+            if found is None and f[0] == "lit" and f[2] and plain(f[1]).startswith("eq(") and ident_plain in plain(f[1]):
+                others = [x for x in re.findall(r"[A-Za-z_]\w*", plain(f[1])[3:-1]) if x not in ident_plain]
+                for o in others:
+                    ds = [d for _, d in assignments(fn, o) if d is not None]
+                    if len(ds) == 1 and re.search(r"\.(arg|id|name)$", norm(ds[0])):
+                        found = (f"the name already bound there ({o})", "complete")
+        for f in w.facts:
             if f[0] == "lit" and not f[2] and f[1].startswith("in("):
                 inner = f[1][3:-1]
                 left, _, right = inner.rpartition(", ")
